@@ -419,3 +419,89 @@ Lemma trav_ext : forall fuel x acc,
 Proof. intros. rewrite !trav_R. now rewrite R_ext. Qed.
 
 End Ext.
+
+(* ------------------------------------------------------------------ a callback that goes on until it aborts the traversal *)
+
+Section Stoppable.
+Context {M : MatchOps}.
+Variable t : tree.
+Variable m : matcher.
+Variable root_depth : nat.
+Variable use_filters : bool.
+Variable guard_fixed : bool.
+Variable A : Type.
+Variable g : A -> node -> A.
+Variable stop : A -> bool.
+
+(* FindNodesCallback: do something, then return the node's depth, or -1 ("abort now") once [stop] holds *)
+Definition cbS : A -> node -> A * Z :=
+  fun acc n => (g acc n, if stop (g acc n) then (-1)%Z else Z.of_nat (depth n)).
+
+(* fold g over the list until stop holds *)
+Fixpoint sfold (L : list node) (acc : A) : A * bool :=
+  match L with
+  | [] => (acc, false)
+  | n :: L' => if stop (g acc n) then (g acc n, true) else sfold L' (g acc n)
+  end.
+
+Definition conv (r : A * bool) : A * option Z := (fst r, if snd r then Some (-1)%Z else None).
+
+Lemma sfold_app : forall l1 l2 acc,
+  sfold (l1 ++ l2) acc = if snd (sfold l1 acc) then sfold l1 acc else sfold l2 (fst (sfold l1 acc)).
+Proof.
+  induction l1 as [|n l1 IH]; intros l2 acc; [reflexivity|].
+  cbn [app sfold]. destruct (stop (g acc n)); [reflexivity | apply IH].
+Qed.
+
+Local Notation RS := (R t m root_depth use_filters guard_fixed A cbS).
+Local Notation VV := (V t m root_depth use_filters guard_fixed).
+Local Notation CV := (child_visits m root_depth use_filters guard_fixed).
+
+Lemma run_x_stop : forall recW W c l acc,
+  1 <= depth c -> (forall a, recW (n_path c) a = conv (sfold (W (n_path c)) a)) ->
+  run_x A cbS recW c l acc = conv (sfold (act_nodes W c l) acc).
+Proof.
+  intros recW W c l acc Hd HW. revert acc. induction l as [|a l IH]; intros acc; [reflexivity|].
+  destruct a; cbn [run_x act_nodes flat_map].
+  - fold (act_nodes W c l). cbn [app sfold]. unfold cbS at 1 2 3. cbn [fst snd].
+    destruct (stop (g acc c)).
+    + replace (Z.ltb (-1) (Z.of_nat (depth c) - 1)) with true by (symmetry; apply Z.ltb_lt; lia). reflexivity.
+    + rewrite ltb_self_false. unfold cbS. cbn [fst]. apply IH.
+  - fold (act_nodes W c l). rewrite HW, sfold_app.
+    destruct (sfold (W (n_path c)) acc) as [a1 b1] eqn:E. unfold conv at 1 2 3. cbn [fst snd].
+    destruct b1.
+    + replace (Z.ltb (-1) (Z.of_nat (depth c) - 1)) with true by (symmetry; apply Z.ltb_lt; lia). reflexivity.
+    + apply IH.
+Qed.
+
+Lemma run_procs_stop : forall recW W rel ps acc,
+  (forall ck, In ck ps -> 1 <= depth (fst ck)) ->
+  (forall ck, In ck ps -> forall a, recW (n_path (fst ck)) a = conv (sfold (W (n_path (fst ck))) a)) ->
+  run_procs m root_depth use_filters guard_fixed A cbS recW rel ps acc = conv (sfold (flat_map (CV W rel) ps) acc).
+Proof.
+  intros recW W rel ps. induction ps as [|ck ps IH]; intros acc Hd HW; [reflexivity|].
+  cbn [run_procs flat_map].
+  rewrite (run_x_stop recW W (fst ck) _ acc (Hd ck (or_introl eq_refl)) (HW ck (or_introl eq_refl))).
+  change (act_nodes W (fst ck) (actions m root_depth use_filters guard_fixed (fst ck) rel (snd ck) (active m rel) 0 false false))
+    with (CV W rel ck).
+  rewrite sfold_app. destruct (sfold (CV W rel ck) acc) as [a1 b1] eqn:E. unfold conv at 1 2. cbn [fst snd].
+  destruct b1; [reflexivity|].
+  apply IH; intros ck' H'; [apply Hd | apply HW]; now right.
+Qed.
+
+Lemma R_stop : forall f x acc, RS f x acc = conv (sfold (VV f x) acc).
+Proof.
+  induction f as [|f IH]; intros x acc; [reflexivity|].
+  cbn [R V]. apply run_procs_stop.
+  - intros ck Hck. destruct (procs_in t m _ _ _ Hck) as [_ [k Hk]]. unfold depth. rewrite Hk, app_length. cbn. lia.
+  - intros ck Hck a. apply IH.
+Qed.
+
+Theorem trav_stop : forall fuel x acc,
+  fst (trav A cbS t m root_depth use_filters guard_fixed fuel x acc) = fst (sfold (VV fuel x) acc).
+Proof.
+  intros fuel x acc. rewrite trav_R, R_stop. unfold fin, conv. cbn [fst snd].
+  destruct (snd (sfold (VV fuel x) acc)); reflexivity.
+Qed.
+
+End Stoppable.
